@@ -256,10 +256,12 @@ def build(job):
                     m.st(x[i] >= st['lo'])
                     m.st(x[i] <= st['hi'])
         elif st['kind'] == 'norm':
-            if st['how'] == 'inf':
-                m.st(rso.norm(x, 'inf') <= st['rad'])
+            k = float(st.get('num', 1)) / float(st.get('den', 1))
+            e = rso.norm(x, 'inf') if st['how'] == 'inf' else abs(x)
+            if k == 1.0:
+                m.st(e <= st['rad'])
             else:
-                m.st(abs(x) <= st['rad'])
+                m.st(k * e <= k * st['rad'])
         else:
             raise ValueError('unknown statement kind %r' % (st['kind'],))
     if S['opos'] != 'first':
